@@ -187,7 +187,7 @@ COMMON_ASSUMPTIONS = [
 
 def generic(pid, tier, *, profiles, own, twin_flag=None, n_quick=400, n_thorough=4000, cfgs=None,
             real_n=0, level="model_checking", extra_assumptions=None, rule=None, chunk=None, gen_kwargs=None,
-            blocks_view=None):
+            blocks_view=None, drop=("reclaim",)):
     """profiles: list of generator profile names; own(div) -> bool says whether a rejected
     execution is this property's business; twin_flag: ops carrying this flag are removed to
     build the twin execution (the property is blamed only if the twin is accepted)."""
@@ -200,14 +200,14 @@ def generic(pid, tier, *, profiles, own, twin_flag=None, n_quick=400, n_thorough
     per = max(1, n // len(profiles))
     for p in profiles:
         behs += G.corpus(p, "tiny", per, C.seed(), cfgs=cfgs, prefix="%s_" % p, **(gen_kwargs or {}))
-    traces, verd, stats = ck.run_and_validate(behs, "tiny", chunk=chunk)
+    traces, verd, stats = ck.run_and_validate(behs, "tiny", chunk=chunk, drop=drop)
     byid = {b["id"]: b for b in behs}
     failed = [g for g in verd if not verd[g]["ok"]]
     # twins
     twin_ok = {}
     if twin_flag and failed:
         twins = [G.strip_ops(byid[g], twin_flag, "~tw") for g in failed[:200]]
-        ttr, tverd, _ = ck.run_and_validate(twins, "tiny", chunk=chunk)
+        ttr, tverd, _ = ck.run_and_validate(twins, "tiny", chunk=chunk, drop=drop)
         for g in failed[:200]:
             twin_ok[g] = tverd[g + "~tw"]["ok"]
     diag = 0
@@ -288,7 +288,7 @@ def c15(tier):
 def c02(tier):
     def own(d):
         return True  # anything that the execution without the non-consuming calls does not show
-    return generic("C02", tier, profiles=["peek"], own=own, twin_flag="nc", n_quick=600, n_thorough=6000,
+    return generic("C02", tier, profiles=["peek", "peekfill", "oreclaim"], own=own, twin_flag="nc", n_quick=800, n_thorough=6000, drop=(),
                    extra_assumptions=["blame rule: a rejected execution counts against C02 only if the same execution "
                                       "without its peeks and offset-addressed reads is accepted"])
 
